@@ -407,8 +407,8 @@ func TestVerif_C14_rtrefresh(t *testing.T) {
 // ---- real-parallel twin: Refresh() racing with Close ------------------------------------------------
 
 func TestVerif_C14_rtrefresh_par(t *testing.T) {
-	vh.Run(t, vh.Spec{Prop: "C14", Unit: "rtrefresh_par", Quick: 40, Thorough: 1200, CostMs: 120, WallS: 300,
-		Rule: "real time, no bubble: per case 60 managers (instant query / ping functions, empty or 3-peer table), 2-6 goroutines calling Refresh(force) in a tight loop (yielding) while Close runs at a PRNG spin count; verdict = panic recovered from Close / Refresh, unanswered channel (logical: the receive is attempted after Close returned and everything the manager started has exited), census after Close; wall clock only bounds the harness (watchdog = inconclusive); non-trivial = >= 1 Refresh call overlapped Close; distinct by (spinners, peers)",
+	vh.Run(t, vh.Spec{Prop: "C14", Unit: "rtrefresh_par", Quick: 10, Thorough: 300, CostMs: 400, WallS: 300,
+		Rule: "real time, no bubble: per case 40 managers (instant query / ping functions, empty or 3-peer table), 2-6 goroutines calling Refresh(force) in a tight loop (yielding) while Close runs at a PRNG spin count; verdict = panic recovered from Close / Refresh, unanswered channel (logical: the receive is attempted after Close returned and everything the manager started has exited), census after Close; wall clock only bounds the harness (watchdog = inconclusive); non-trivial = >= 1 Refresh call overlapped Close; distinct by (spinners, peers)",
 		Clauses: []string{"close-no-panic", "no-goroutine-after-close", "refresh-answered"}},
 		func(c *vh.Case) {
 			r := c.R
@@ -420,7 +420,7 @@ func TestVerif_C14_rtrefresh_par(t *testing.T) {
 			h := vsim.NewHost(self, ma.StringCast("/ip4/9.9.9.9/tcp/4001"))
 			defer h.Close()
 			overlapped := 0
-			for round := 0; round < 60 && !c.Failed(); round++ {
+			for round := 0; round < 40 && !c.Failed(); round++ {
 				rt, err := kbucket.NewRoutingTable(4, kbucket.ConvertPeerID(self), time.Minute, h.Peerstore(), time.Hour, nil)
 				if err != nil {
 					panic(err)
